@@ -136,7 +136,8 @@ def a64_immediates():
         v.append((txt, ("imm", val)))
     for txt in ("#1.5", "#0.5", "#2.0e+1", "1.0"):
         v.append((txt, ("fimm", "float")))
-    for c in ("eq", "ne", "lt", "ge", "hi"):
+    # all 17 condition codes incl. the aliases hs / lo, some in upper or mixed case
+    for c in ("eq", "ne", "cs", "hs", "cc", "lo", "mi", "pl", "vs", "vc", "hi", "ls", "ge", "lt", "gt", "le", "al", "HS", "LO", "Ge"):
         v.append((c, ("cond", c.upper())))
     # labels, also ones that start like a condition code or a register name
     for name in (".L3", "loop", "next_block", "almost_done", "x_end", "lo_label", "ne.x"):
